@@ -45,8 +45,9 @@ def run(ctx, rep):
         from ..thir import Agg as _Agg, Bits as _Bits, Cond as _Cond, vkey as _vkey
         rows = {}
         unevaluable = None
-        for code in (0, 5):
-            for cfg in (None, 7):
+        CODES, CFGS = (0, 1, 5, 255), (None,) + tuple(range(1, 256))   # 0 is rejected by validate_args (R16.3)
+        for code in CODES:
+            for cfg in CFGS:
                 for flag in (False, True):
                     ev.call_hooks = [
                         (lambda fn, res: fn.endswith("::any_errors_exit_code"), lambda n, a, cfg=cfg: _Agg("core::option::Option", "Some", {"0": _Bits.const(cfg, 8)}) if cfg is not None else _Agg("core::option::Option", "None", {})),
@@ -61,14 +62,14 @@ def run(ctx, rep):
                     finally:
                         ev.call_hooks = []
         want = {}
-        for code in (0, 5):
-            for cfg in (None, 7):
+        for code in CODES:
+            for cfg in CFGS:
                 for flag in (False, True):
-                    want[(code, cfg, flag)] = "sym(EXIT(0x5))" if code else ("sym(EXIT(0x7))" if (cfg is not None and flag) else "SUCCESS")
+                    want[(code, cfg, flag)] = "sym(EXIT(%s))" % hex(code) if code else ("sym(EXIT(%s))" % hex(cfg) if (cfg is not None and flag) else "SUCCESS")
         norm = {k: ("SUCCESS" if "SUCCESS" in v and "EXIT(" not in v else v) for k, v in rows.items()}
         bad = {k: norm.get(k) for k in want if norm.get(k) != want[k]}
-        rep.check(not bad and unevaluable is None, "R16.1", "R16.1|exit_table", "exit(): code 0 ∧ any-errors code configured ∧ flag ⇒ N; code 0 otherwise ⇒ SUCCESS; else the code (8 combinations evaluated)", ex,
-                  "exit() deviates for (code, configured, flag) = %s%s" % (bad, (" — " + unevaluable) if unevaluable else ""))
+        rep.check(not bad and unevaluable is None, "R16.1", "R16.1|exit_table", "exit(): code 0 ∧ any-errors code configured ∧ flag ⇒ N; code 0 otherwise ⇒ SUCCESS; else the code (%d combinations evaluated: every configurable code 1..=255 and none)" % len(want), ex,
+                  "exit() deviates for (code, configured, flag) = %s%s" % (dict(list(bad.items())[:4]), (" — " + unevaluable) if unevaluable else ""))
     else:
         rep.missing("R16.1", ex)
     ir = "fastpasta::init::run"
@@ -219,7 +220,13 @@ def run(ctx, rep):
                     out_.add((nm, lits))
         return out_
     ev_a = ext_tests(va) if va in f.fns else None
-    ev_b = ext_tests(cr) if cr in f.fns else None
+    ev_b = None
+    if cr in f.fns:
+        # run() and the helpers of its module it reaches (the dispatch may live in an extracted helper)
+        ev_b = set()
+        for p_ in sorted(ctx.cg().reachable([cr])):
+            if p_ == cr or p_.startswith("fastpasta::controller::"):
+                ev_b |= ext_tests(p_) or set()
     rep.check(bool(ev_a) and ev_a == ev_b, "R16.3", "R16.3|extension_tests_agree",
               "validate_args and Controller::run test the statistics-file extension the same way: %s" % sorted(ev_a or []), va,
               "validate_args tests the extension with %s but Controller::run dispatches on %s: a file accepted by validation can hit the controller's panic branch after the input was processed" % (
